@@ -15,7 +15,7 @@ Require Import Gen.PanicSites Gen.PanicMap.
 (* developments of other properties that C01 builds on, by qualified name only
    (std++ notations are not imported here) *)
 Require Model.Lift Spec.CfgSpec Proofs.LiftTotalFlat Proofs.LiftEdges Model.Includes Proofs.IncludesNoPanic.
-Require Model.Ir Model.Ssa Proofs.SsaNoPanic Proofs.SsaFuel.
+Require Model.Ir Model.Ssa Proofs.SsaNoPanic Proofs.SsaFuel Proofs.SsaClean.
 (* the chain of the actual mirrors (Model.PipelineMirrors) and its bridges *)
 Require Model.Ast Model.Desugar Model.Dom Model.Propagate Model.Justify Model.Clean Spec.ExpandSpec Spec.DomSpec.
 Require Model.PipelineMirrors Proofs.PipelineMirrorsProofs Proofs.MirrorsShape Proofs.MirrorsAdapter Proofs.MirrorsDom
@@ -148,8 +148,10 @@ Print Assumptions C01_includes_never_panic.
    The proof shows that the pre-order walk visits every block at most once
    (children_tree_of_order), that phi insertion and the updates of successor phis
    keep unvisited blocks unversioned, and that renaming an unversioned block never
-   asserts.  SFuel (fuelled work list / recursion of the mirror) and SErrUndefined
-   (the `used before defined` error report) are not excluded. *)
+   asserts.  SFuel (fuelled work list / recursion of the mirror) is excluded by the next
+   theorem; SErrUndefined (the `used before defined` error report) is a legitimate
+   answer.  That the children lists of the tree DominatorTree::new computes on a lifted
+   graph satisfy the three facts is C01_lifted_children_order_facts below. *)
 Theorem C01_into_ssa_never_panics :
   forall (frontier children : list (list N)) (c : Model.Ir.cfg),
     Proofs.SsaNoPanic.unversioned c -> (0 < length (Model.Ir.c_blocks c))%nat ->
@@ -191,6 +193,17 @@ Theorem C01_into_ssa_fuel_needs_declared :
   Model.Ssa.into_ssa [[0%N]] [[]] Proofs.SsaFuel.fx_graph = Model.Ssa.SFuel.
 Proof. exact Proofs.SsaFuel.fuel_needs_declared. Qed.
 Print Assumptions C01_into_ssa_fuel_needs_declared.
+
+(* BRIDGE SSA -> propagation: the construction keeps a graph free of value claims
+   (renaming copies the knowledge slot of every node, inserted phi statements carry none),
+   so the first hypothesis of C20_propagate_completes holds for what into_ssa returns
+   whenever it holds for what lifting built *)
+Theorem C01_into_ssa_keeps_clean :
+  forall (frontier children : list (list N)) (c c1 : Model.Ir.cfg),
+    Model.Clean.clean_cfg c = true -> Model.Ssa.into_ssa frontier children c = Model.Ssa.SOk c1 ->
+    Model.Clean.clean_cfg c1 = true.
+Proof. exact Proofs.SsaClean.into_ssa_keeps_clean. Qed.
+Print Assumptions C01_into_ssa_keeps_clean.
 
 (* `2 + edges - nodes` of definition_complexity.rs cannot underflow: a lifted graph
    has at least (number of blocks - 1) entries in its successor lists, because every
@@ -291,18 +304,18 @@ Print Assumptions C01_lifted_children_order_facts.
                    (multi-)substitutions);
      per function  metas known, the body is a block, ast_init_ok;
      per desugared body, about the two unmirrored stages:
-       lifted_ok      the IR statements of the leaves carry no version and assign only
-                      declared locals (IR lifting is not mirrored);
-       ssa_output_ok  the graph into_ssa returns carries no value claim and has one
-                      defining assignment per local -- the two hypotheses of
-                      C20_propagate_completes; C14_unique_defs states the second for
-                      graphs C14's validator accepts, it is not proved for the
-                      construction mirror itself.
+       lifted_ok      the IR statements of the leaves carry no version and no value claim
+                      and assign only declared locals (IR lifting is not mirrored);
+       ssa_output_ok  the graph into_ssa returns has one defining assignment per local --
+                      the second hypothesis of C20_propagate_completes; C14_unique_defs
+                      states it for graphs C14's validator accepts, it is not proved for
+                      the construction mirror itself.
    Proved, not assumed: the desugarer does not crash (C18), its output has the shape lifting
    accepts, lifting returns a graph (C12 + C01_lift_...), the adapter is total, the
    dominator tree is computed (C15) and its children lists are a tree with growing
    indices, into_ssa returns SOk or the `used before defined` error (no SPanic, no SFuel),
-   propagation completes at every budget (C20). *)
+   what it returns carries no value claim (the first hypothesis of C20), propagation
+   completes at every budget (C20). *)
 Theorem C01_pipeline_mirrors_never_panic :
   forall (ir_stmt : Model.Ast.statement -> option Model.Ir.stmt)
          (ir_cond : Model.Ast.meta -> Model.Ast.expression -> option (Model.Ir.meta * Model.Ir.expr))
